@@ -354,10 +354,13 @@ pub fn batchquery(m: &HashMap<String, String>) -> Value {
 pub fn denom(m: &HashMap<String, String>) -> Value {
     let s = m.get("s").cloned().unwrap_or_default();
     let which = m.get("fn").cloned().unwrap_or_else(|| "validate_denom".into());
-    let (real, spec) = if which == "validate_ibc_denom" {
-        (staking::helpers::validate_ibc_denom(s.clone()), s.starts_with("ibc/") && s.len() == 68)
-    } else {
-        (staking::helpers::validate_denom(s.clone()), s.len() > 3 && s.bytes().all(|b| b.is_ascii_alphabetic()))
+    let s2 = s.clone();
+    let w2 = which.clone();
+    let run = std::panic::catch_unwind(move || if w2 == "validate_ibc_denom" { staking::helpers::validate_ibc_denom(s2) } else { staking::helpers::validate_denom(s2) });
+    let spec = if which == "validate_ibc_denom" { s.starts_with("ibc/") && s.len() == 68 } else { s.len() > 3 && s.bytes().all(|b| b.is_ascii_alphabetic()) };
+    let real = match run {
+        Ok(r) => r,
+        Err(_) => return json!({"reproduced": true, "real": "panic", "spec_accepts": spec, "inputs": {"s": s, "fn": which}}),
     };
     let reproduced = match &real {
         Ok(r) => !spec || *r != s,
